@@ -103,6 +103,30 @@ impl Tracer {
     }
 }
 
+static JOURNAL: std::sync::Mutex<Option<std::fs::File>> = std::sync::Mutex::new(None);
+
+/// Opens the crash journal: before every call into the code under test the harness
+/// records which call it is about to make, so that a process abort (allocation failure,
+/// stack overflow) or a hang can be attributed to an input instead of being a tool error.
+pub fn journal_open(path: &str) {
+    *JOURNAL.lock().unwrap() = std::fs::File::create(path).ok();
+}
+
+pub fn journal(label: &str, input: &[u8]) {
+    use std::io::Seek;
+    use std::io::Write;
+    if let Some(f) = JOURNAL.lock().unwrap().as_mut() {
+        let mut line = format!("{label} ");
+        for b in input.iter().take(4096) {
+            line.push_str(&format!("{b:02x}"));
+        }
+        line.push('\n');
+        let _ = f.seek(std::io::SeekFrom::Start(0));
+        let _ = f.write_all(line.as_bytes());
+        let _ = f.set_len(line.len() as u64);
+    }
+}
+
 pub fn silence_panics() {
     std::panic::set_hook(Box::new(|_| {}));
 }
